@@ -14,6 +14,7 @@ package main
 // {"kind":"oracle"} lines for what the implementation itself gets wrong, {"kind":"stat"}.
 
 import (
+	stdcsv "encoding/csv"
 	"encoding/json"
 	"fmt"
 	"io/ioutil"
@@ -302,6 +303,14 @@ func c14CsvView(text string) (view J) {
 	if !ok {
 		return J{"k": "err"}
 	}
+	// the field texts as encoding/csv delivers them (same reader settings as csv.DataSet), read independently of the
+	// table so that CellString itself stays under test
+	rd := stdcsv.NewReader(strings.NewReader(text))
+	rd.TrimLeadingSpace = true
+	records, rerr := rd.ReadAll()
+	if rerr != nil || len(records) == 0 {
+		return J{"k": "err"}
+	}
 	hdr := []string{}
 	for _, h := range ht.Header() {
 		hdr = append(hdr, c14S(h))
@@ -311,11 +320,15 @@ func c14CsvView(text string) (view J) {
 	for r := uint(0); r < rows; r++ {
 		row := []J{}
 		for c := uint(0); c < cols; c++ {
+			raw := "?"
+			if int(r)+1 < len(records) && int(c) < len(records[r+1]) {
+				raw = records[r+1][c]
+			}
 			switch v := ht.Cell(c, r).(type) {
 			case float64:
-				row = append(row, J{"t": "f", "f": c14FloatJ(v), "txt": c14S(fmt.Sprintf("%v", v))})
+				row = append(row, J{"t": "f", "f": c14FloatJ(v), "txt": c14S(raw)})
 			case bool:
-				row = append(row, J{"t": "b", "v": v})
+				row = append(row, J{"t": "b", "v": v, "txt": c14S(raw)})
 			case string:
 				row = append(row, J{"t": "s", "v": c14S(v)})
 			default:
